@@ -51,6 +51,16 @@ CLAIMED = {
             '§6 C05',
             'component lists without COMPONENTS OF (C09); ENUMERATED index is C14; identifiers satisfy X.680 12.3 (no underscore)',
             'Coq proof (list induction) + differential correspondence'),
+    'C03': ('proof',
+            'The property\'s whole configuration space (module default x keyword x class x position x kind) is closed by a recomputed '
+            'finite check lifted to a forall statement (class and number kept; explicit exactly per X.680 31.2.7 outside the two known '
+            'classes); an unbounded theorem by mutual induction that the module default reaches every tag at every nesting depth; the '
+            'automatic_tags rule equals X.680 25.3/29.2. Hand model tied end-to-end on all 1200 configurations plus random types; '
+            'two machine-checked refutations are the known findings',
+            '§6 C03',
+            'attributes are read, not DER: rasn\'s own explicit tagging of CHOICE/open types is assumed (their explicitness is not compared); '
+            'IMPLICIT on a CHOICE/open type is excluded as illegal per X.680',
+            'Coq proof (finite closure by vm_compute + mutual induction) + differential correspondence'),
 }
 NOT_YET = 'check not built yet in this session (planned, see DESIGN.md §6); not claimed until its proof and correspondence run'
 
